@@ -60,6 +60,9 @@ def plan(tier):
         # the caller's streams are in use: stdout fully buffered with unflushed text of the program in it, stderr wide-oriented (fwprintf users)
         o.append(('stdout-pipe-callers-stdio-in-use', b'output = stdout\n', 'stdout', 'pipe', 'pipe', None, [1, 100, 4096], 'line'))
         o.append(('stderr-pipe-callers-stdio-in-use', b'output = stderr\n', 'stderr', 'pipe', 'pipe', None, [1, 100, 4096], 'line'))
+        # ... or carry a sticky error indicator from an earlier failed write of the program (ENOSPC long ago); the descriptors are healthy
+        o.append(('stdout-pipe-callers-stream-has-error-flag', b'output = stdout\n', 'stdout', 'pipe', 'pipe', None, [1, 100, 4096], 'line'))
+        o.append(('stderr-pipe-callers-stream-has-error-flag', b'output = stderr\n', 'stderr', 'pipe', 'pipe', None, [1, 100, 4096], 'line'))
         return o
     for name, oline, sink, so, se, sb, sizes, framing in outputs():
         cases = []
@@ -88,7 +91,7 @@ def plan(tier):
                     cases.append(dict(cfg=b'[snoopy]\nerror_logging = ' + (b'yes' if el else b'no') + b'\nmessage_format = ' + fmt + b'\nlog_message_max_length = 255\n' + cl + oline,
                                       M=M, sink=sink, framing=framing, logged=passes, main=b'X' if raised else b'hello', errlog=el and raised, oc=(-1, 2),
                                       label='%s/errlog=%s/raised=%s/chain=%s' % (name, el, raised, cn)))
-        procs.append(dict(name=name, sinks=(so, se), sockbase=sb, cases=cases, prelude=['stdiopending 1'] if name.endswith('callers-stdio-in-use') else []))
+        procs.append(dict(name=name, sinks=(so, se), sockbase=sb, cases=cases, prelude=['stdiopending 1'] if name.endswith('callers-stdio-in-use') else ['stdiopending 2'] if name.endswith('has-error-flag') else []))
     # socket output: path lengths short / 106 / 107 (the sun_path limit); 108 and 150: the configured path cannot name any socket - no record anywhere,
     # in particular not at the socket that listens on its first 107 bytes (the harness's sink sits exactly there)
     for plen in ('short', 106, 107, '107+1', '107+43'):
